@@ -71,6 +71,20 @@ fn main() {
 				}
 			}
 		}
+		Some("dump") => {
+			// kverif dump <ID> <seed> <from> <to>: prints the generated cases (debugging aid)
+			let Some(check) = args.get(1).and_then(|id| checks::lookup(id)) else {
+				eprintln!("dump: unknown check");
+				std::process::exit(2);
+			};
+			let seed: u64 = args.get(2).and_then(|s| s.parse().ok()).unwrap_or(runner::DEFAULT_SEED);
+			let from: u64 = args.get(3).and_then(|s| s.parse().ok()).unwrap_or(0);
+			let to: u64 = args.get(4).and_then(|s| s.parse().ok()).unwrap_or(10);
+			for i in from..to {
+				println!("{}", serde_json::to_string(&check.case(Tier::Quick, seed, i)).unwrap());
+			}
+			0
+		}
 		Some("list") => {
 			for c in checks::all() {
 				println!("{}", c.info().id);
